@@ -54,6 +54,29 @@ Definition rating_compare (op : cmpop) (k : kind) (a : rating F) (other : pyval 
   | _, None => Raise ValueError
   end.
 
+(** the model constructor [Model(mu=25.0, sigma=25.0/3.0, beta=25.0/6.0, kappa=0.0001, gamma=_gamma,
+    tau=25.0/300.0, limit_sigma=False)]: given values are kept, omitted ones take these defaults *)
+Definition default_mu : F := fofZ 25.
+Definition default_sigma : F := fdiv (fofZ 25) (fofZ 3).
+Definition default_beta : F := fdiv (fofZ 25) (fofZ 6).
+Definition default_kappa : F := fofdy 7378697629483821 (-66).      (* the double nearest 0.0001 *)
+Definition default_tau : F := fdiv (fofZ 25) (fofZ 300).
+Definition opt_or {A} (o : option A) (d : A) : A := match o with Some x => x | None => d end.
+Definition model_init (mu sigma beta kappa tau : option F) (g : option (gamma_fn F)) (lim : option bool)
+  : mstate F :=
+  mkState (opt_or mu default_mu) (opt_or sigma default_sigma) (opt_or beta default_beta)
+          (opt_or kappa default_kappa) (opt_or tau default_tau) (opt_or g gamma_default) (opt_or lim false).
+
+(** the public helpers [_calculate_team_ratings(game, ranks)], [_c], [_sum_q], [_a] (all five classes carry them;
+    [ranks], when given, are the already sorted rank values) *)
+Definition calculate_team_ratings (game : list (list (rating F))) (ranks : option (list key)) : list (trating F) :=
+  team_ratings game (match ranks with
+                     | Some ks => calc_rankings key_ltb ks
+                     | None => seq 0 (length game) end).
+Definition helper_c (beta : F) (trs : list (trating F)) : F := pl_c (mkParams beta fzero gamma_default) trs.
+Definition helper_sum_q (trs : list (trating F)) (c : F) : list F := pl_sum_q trs c.
+Definition helper_a (trs : list (trating F)) : list nat := pl_a trs.
+
 (** what [__hash__] hashes: equal triples give equal hashes *)
 Definition hash_key (r : rating F) : Z * F * F := (r_id r, r_mu r, r_sigma r).
 End RatingOps.
